@@ -14,6 +14,18 @@ CLAIMS = {
         technique="Lean 4 proof over lexer model + regenerated tables + differential correspondence",
         design="§5 C18"),
 }
+CLAIMS["C14"] = dict(
+    text="Unbounded Lean theorems on the lexer model, in suffix form (for every lexer state and every remaining text): CRLF lexes exactly like LF; trailing spaces, a final newline and a trailing comment do not change the token stream the parser consumes; position-independence of the token stream (run_shape). "
+         "Tied by regenerated tables and the token-stream correspondence on every trivia variant; the end-to-end clause (verdict and emitted text unchanged) is decided by a metamorphic oracle on the implementation.",
+    note="Proved: crlf_inert, trailing_space(_eof)_inert, final_newline_inert, trailing_comment_inert, run_shape. Oracle+correspondence only: inserted blank/comment lines, parser insensitivity to NL counts, redundant parentheses, lifting of the suffix-form theorems to arbitrary insertion points.",
+    technique="Lean 4 proof over lexer model + differential correspondence + metamorphic oracle",
+    design="§5 C14")
+CLAIMS["C03"] = dict(
+    text="Unbounded Lean theorem lex_total on the lexer model: for every input text the lexer returns tokens or a lexical error and no Rust panic site of the modelled code (byte slicing of interpolated expressions; the model's own nesting fuel) is reachable. "
+         "The model is tied to the code by the token-stream correspondence on the same inputs. The remaining stages (parser, context, unifier, generator, rendering), stack depth and wall time are decided by a crash/hang oracle that runs the real pipeline in a worker process on adversarial structures, deep nesting, random text and token-level mutants.",
+    note="Proved: lexer stage only (lex_total, lex_ok_or_err). Explored, not proved: every other stage, stack overflow, time bound (runtime behaviour no model exhibits); bounds: inputs <= 16 KiB, nesting <= 40, dev profile with overflow checks.",
+    technique="Lean 4 proof over lexer model + crash/hang oracle on the real pipeline",
+    design="§5 C03")
 NOT_YET = {}
 ALL = ["C%02d" % i for i in range(1, 21)]
 
